@@ -36,9 +36,15 @@ def level_named(level):
     return out
 
 
-def entered_chain(ex, env, level, items):
+def entered_chain(ex, env, level, items, flag_ix=None, special=None):
     """documentation-level notion of 'the innermost subcommand entered' (C08): a command is
-    entered when its name is the first item its level has not claimed"""
+    entered when its name is the first item its level has not claimed.
+    `flag_ix`: index of the help/version item under consideration; `special(i, chain)`: is item i a
+    help flag (or a version flag of a level that configured a version)?  Both are needed for
+    `adjacent` commands only: such a command owns the contiguous run of items right of its name that
+    its own parser accepts and the enclosing level did not claim; the flag is inside the command iff
+    it lies in that run, otherwise the block is over and the enclosing level goes on (a sibling
+    command may follow)."""
     chain = []
     lo = 0
     n = len(items)
@@ -47,8 +53,9 @@ def entered_chain(ex, env, level, items):
         if items[i].kind == "dd":
             hi = i
             break
+    done = set()
     while level is not None:
-        claimed = set()
+        claimed = set(done)
         for f in level_named(level):
             for i in range(lo, hi):
                 it = items[i]
@@ -80,9 +87,50 @@ def entered_chain(ex, env, level, items):
                     break
         if nxt is None:
             return chain
+        if getattr(nxt, "adjacent", False) and flag_ix is not None:
+            if flag_ix <= first:
+                return chain
+            sub_chain = chain + [nxt.names[0]]
+            j = first + 1
+            seen = {}
+            specials = []
+            while j < hi and j not in claimed:
+                it = items[j]
+                step = 0
+                if it.kind in ("short", "long"):
+                    # take_flag does not look at an attached value: `-h=` is still the help flag
+                    if special is not None and special(j, sub_chain):
+                        specials.append(j)
+                        step = 1
+                    else:
+                        for f in level_named(nxt.level):
+                            if not G.name_match(ex, env, f, it):
+                                continue
+                            if f.kind == "arg":
+                                if f.adjacent and not it.adj:
+                                    continue
+                                if j + 1 < hi and (j + 1) not in claimed and items[j + 1].kind in ("word", "argword"):
+                                    step = 2
+                            elif not it.adj and not seen.get(id(f)):
+                                seen[id(f)] = True
+                                step = 1
+                            break
+                if step == 0:
+                    break
+                j += step
+            if specials:
+                chain.append(nxt.names[0])
+                level = nxt.level
+                lo, hi = first + 1, j
+                done = set()
+                continue
+            # the block is over before the flag: back to the enclosing level
+            done |= set(range(first, j))
+            continue
         chain.append(nxt.names[0])
         level = nxt.level
         lo = first + 1
+        done = set()
     return chain
 
 
@@ -108,6 +156,13 @@ class Oracle(TokOracle):
             from mirsym.engine import Infeasible
             raise Infeasible()
         w = cands[self.which]
+        ex.c10_flag_item = sum(tok.FORM_ITEMS[x.form] for x in words[:words.index(w)])
+        ex.c10_names = ((hs, hl), (vs, vl))
+        if self.mode == "help" and getattr(g, "adjacent_cmds", False) and any(VERSIONS.get(g.name, {}).values()):
+            vs, vl = (vs or [ord("V")]), (vl or ["version"])
+            # help and version requested together inside an adjacent command: bpaf hands the request to the
+            # enclosing level (stdout, the enclosing level's help); which level should answer is not fixed
+            assume_not_named(ex, words, vs, vl)
         names_s, names_l = (hs, hl) if self.mode == "help" else (vs, vl)
         if w.form == "short":
             if not names_s:
@@ -187,7 +242,21 @@ class Oracle(TokOracle):
         if g.level is None:
             leaf(ex, [])
         else:
-            ex.sub_explore(lambda e: entered_chain(e, env, g.level, items), leaf)
+            fix = getattr(ex, "c10_flag_item", None)
+            (hs, hl), (vs, vl) = getattr(ex, "c10_names", (((), ()), ((), ())))
+
+            def special(e, i, sub_chain):
+                it = items[i]
+                def named(ss, ls):
+                    if it.kind == "short":
+                        return bool(ss) and e.branch(z3.Or(*[it.name == c for c in ss]), "c10-special")
+                    return bool(ls) and e.branch(z3.Or(*[it.name == e.intern(l) for l in ls]), "c10-special")
+                if named(hs, hl):
+                    return True
+                if VERSIONS.get(g.name, {}).get(tuple(sub_chain), False) and named(vs or [ord("V")], vl or ["version"]):
+                    return True
+                return False
+            ex.sub_explore(lambda e: entered_chain(e, env, g.level, items, fix, lambda i, sc: special(e, i, sc)), leaf)
 
 
 def make_jobs(tier, seed, build):
